@@ -42,15 +42,20 @@ claim("C02",
       "hypotheses shown necessary by counterexamples); inheritance_transparent: for every segment stream the metadata "
       "pass on the fully explicit re-encoding yields the same object lists, chunk counts, lengths, types and properties "
       "(also stated on the serialised BYTES of both files via rd_metadata_ser); the three forbidden encodings are "
-      "rejected; index cache transparency. Values are C01's decoder layer. The implementation is checked on ALL "
+      "rejected; index cache transparency. Composed with C01's read_correct (Props/C02_read.v, closed): "
+      "inheritance_transparent_read - rd_all on the bytes of the abbreviated file and on the bytes of its fully explicit "
+      "re-encoding return the SAME whole observation (objects, order, lengths, properties and every data value), under "
+      "read_correct's hypotheses plus three stated side conditions (no path listed twice in a block; no data object "
+      "that never received an index - shown necessary; the longer explicit form fits the lead-in fields); two different "
+      "abbreviations of the same explicit form read alike. The implementation is checked on ALL "
       "encodings of 2 segments x 2 channels and (thorough) all 35 937 of 3 x 2, plus sampled larger streams: each valid "
       "stream reads like its reference meaning, like its explicit re-encoding, and lazily like eagerly; forbidden ones "
       "raise; the Coq reader model is evaluated on every stream.",
       _READER_NOTE + "Aliasing between segment objects is not expressible in the pure model; retroactive mutation is "
       "caught by the lazy/eager/explicit comparison on the implementation. The corner 'no data then matches previous' "
       "for a never-indexed object is excluded by a visible hypothesis (DESIGN.md 13.2).",
-      "Coq proof on the state-machine model (multi-segment simulation) + exhaustive small-bound enumeration against "
-      "implementation and model",
+      "Coq proof on the state-machine model (multi-segment simulation) composed with the end-to-end reader theorem + "
+      "exhaustive small-bound enumeration against implementation and model",
       "DESIGN.md section 7 C02, 13.3")
 claim("C03",
       "Proof (partial) + differential run: model-level agreement of access paths is a corollary of the lazy-read theorems "
@@ -88,12 +93,16 @@ claim("C11",
       "Coq lemma (strided rows) + direct-addressing oracle + in-Coq DAQmx decoder correspondence",
       "DESIGN.md section 7, C11")
 claim("C15",
-      "Proof (partial) + correspondence: every field and value written in either byte order decodes to the same thing "
-      "(Props/C15.v); each generated content is serialised under four byte-order assignments (generated, all LE, all BE, "
+      "Proof + correspondence: every field and value written in either byte order decodes to the same thing "
+      "(Props/C15.v); endian_transparent (Props/C15_read.v, closed): for every file satisfying read_correct's hypotheses "
+      "and EVERY assignment of byte orders to its segments (any mixture), the re-encoded file (ToC bit flipped, raw data "
+      "re-encoded from the chunk values, metadata serialised in the new order) reads - rd_all on bytes - to the identical "
+      "observation; the same for every lazy window and fetch plan (endian_transparent_lazy). Outside the theorem as in "
+      "C01: DAQmx scalers (decoder level, C11), truncated segments. Each generated content is serialised under four byte-order assignments (generated, all LE, all BE, "
       "random per segment) and must read identically (eager, lazy, converted timestamps) and equal the reference meaning; "
       "the Coq reader model is evaluated on every variant.",
       _READER_NOTE,
-      "Coq codec lemmas for both byte orders + per-segment byte-order transcoding differential run + model correspondence",
+      "Coq proof of whole-file byte-order transparency on the byte-level reader model (eager and lazy) + codec lemmas + per-segment byte-order transcoding differential run + model correspondence",
       "DESIGN.md section 7, C15")
 claim("C17",
       "Theorems over the reals (Props/C17.v; only the standard Reals axioms): the transcribed formulas of RtdScaling, "
